@@ -270,10 +270,17 @@ struct Engine
                 if ((m & EQ) && ((m & LT) || (mr & LT))) viol("C14", "eq_excludes_lt", fmt("a==b but a<b or b<a for %s", pr.c_str()));
                 if (i == j && (m & LT)) viol("C14", "lt_not_irreflexive", fmt("a<a for %s", elem_str(es[i]).c_str()));
             }
+        // a NaN field makes the value type's own < no strict weak order: the order axioms are not required of such operands
+        std::vector<bool> nan(N, false);
+        for (size_t i = 0; i < N; ++i)
+            for (auto& fld : es[i].f)
+                for (auto v : fld)
+                    if (v == CODE_NAN) nan[i] = true;
         for (size_t i = 0; i < N && !out().viol_in_case; ++i)
             for (size_t j = 0; j < N; ++j)
                 for (size_t k = 0; k < N; ++k)
                 {
+                    if (nan[i] || nan[j] || nan[k]) continue;
                     ++triples_checked;
                     if ((r(i, j) & LT) && (r(j, k) & LT) && !(r(i, k) & LT))
                         viol("C14", "lt_not_transitive", fmt("a<b and b<c but not a<c for %s, %s, %s", elem_str(es[i]).c_str(), elem_str(es[j]).c_str(), elem_str(es[k]).c_str()));
@@ -348,6 +355,10 @@ struct Engine
                 for (size_t z = 0; z < L; ++z)
                 {
                     ++triples_checked;
+                    bool any_nan = false;
+                    for (auto* seq : {&lv[x], &lv[y], &lv[z]})
+                        for (size_t idx : *seq) any_nan = any_nan || nan[idx];
+                    if (any_nan) continue;
                     if ((VR[x * L + y] & LT) && (VR[y * L + z] & LT) && !(VR[x * L + z] & LT))
                         violation("C14", "lt_not_transitive", fmt("vectors %s < %s < %s but not first < third", jarr_num(lv[x]).c_str(), jarr_num(lv[y]).c_str(), jarr_num(lv[z]).c_str()), "compare", "pool", true);
                 }
